@@ -279,6 +279,8 @@ type srvState struct {
 	invs []*srvInv
 	sent [][]byte // datagrams generated so far (before truncation / corruption faults)
 
+	badHeavy bool // most datagrams of this run are undecodable
+
 	serveReturned bool
 	serveRetSeq   int
 	serveErr      error
@@ -327,6 +329,10 @@ func (st *srvState) start(tier string) {
 	// sequence length: mostly short, sometimes up to 200
 	n := []int{0, 1, 2, 3, 5, 8, 15, 30, 60, 120, 200}[t.Weighted(1, 3, 3, 3, 4, 4, 3, 2, 1, 1, 1)]
 	st.planned = n
+	st.badHeavy = t.Coin(1, 8)
+	if st.badHeavy {
+		s.Probe("run-with-mostly-bad-datagrams")
+	}
 	waitNextNum := []int{0, 30, 70}[t.Weighted(2, 2, 1)]
 	corruptNum := swarmRate(t, 5, 30)
 	closeKind := t.Weighted(4, 3, 3) // 0: close at the end, 1: Close at a drawn point, 2: read error at a drawn point
@@ -482,7 +488,13 @@ func (st *srvState) datagram(i int, corruptNum int) ([]byte, string) {
 		}
 	}
 	st.sent = append(st.sent, b)
-	switch t.Weighted(12, 2, 1, 1, 1) {
+	kind := 0
+	if st.badHeavy {
+		kind = t.Weighted(3, 4, 3, 3, 1) // a run in which most datagrams are bad (scanner, broken peer)
+	} else {
+		kind = t.Weighted(12, 2, 1, 1, 1)
+	}
+	switch kind {
 	case 1:
 		cut := t.Choose(len(b))
 		b = b[:cut]
